@@ -243,12 +243,54 @@ Proof.
   repeat split; assumption.
 Qed.
 
+Lemma grows_ins_implicit : forall a o, grows a (ins_implicit a o).
+Proof.
+  intros a o. unfold ins_implicit. eapply grows_trans; [apply (grows_tokens_insert a (fst o) (snd o))|].
+  apply grows_same; reflexivity.
+Qed.
+
+Lemma ins_implicit_self : forall a o, In (fst o) (a_tokens (ins_implicit a o)).
+Proof. intros a o. unfold ins_implicit. cbn [a_tokens upd_implicit]. apply tokens_insert_self. Qed.
+
+Lemma dfr_ins_implicit : forall a o, dfr a (ins_implicit a o).
+Proof.
+  intros a o. unfold ins_implicit.
+  destruct (tokens_insert_frame a (fst o) (snd o)) as [H1 [H2 [H3 [_ [_ [_ [_ [H8 [_ [_ [_ [_ [_ H14]]]]]]]]]]]]].
+  unfold dfr. cbn [a_rules a_prods a_expect_unused a_epp a_start upd_implicit].
+  repeat split; assumption.
+Qed.
+
+(* %expect-unused appends symbols; nothing else *)
+Definition eu_syms (x : adecl) : list asym := match x with DExpectUnused ss => ss | _ => [] end.
+
+Lemma erase_eu_occs : forall g q ss k off, map erase_sym (eu_occs g q k off ss) = ss.
+Proof.
+  intros g q ss. induction ss as [|s ss IH]; intros k off; cbn [eu_occs map]; [reflexivity|].
+  rewrite IH. destruct s; reflexivity.
+Qed.
+
+Lemma fold_eu_facts : forall occs a,
+  grows a (fold_left ins_eu occs a) /\
+  a_rules (fold_left ins_eu occs a) = a_rules a /\
+  a_prods (fold_left ins_eu occs a) = a_prods a /\
+  a_expect_unused (fold_left ins_eu occs a) = a_expect_unused a ++ occs /\
+  a_epp (fold_left ins_eu occs a) = a_epp a /\
+  a_start (fold_left ins_eu occs a) = a_start a.
+Proof.
+  induction occs as [|o occs IH]; intros a; cbn [fold_left].
+  - rewrite app_nil_r. split; [apply grows_refl|]. repeat split; reflexivity.
+  - destruct (IH (ins_eu a o)) as [G [H1 [H2 [H3 [H4 H5]]]]].
+    split; [eapply grows_trans; [|exact G]; apply grows_same; reflexivity|].
+    rewrite H1, H2, H3, H4, H5. unfold ins_eu. cbn [a_rules a_prods a_expect_unused a_epp a_start upd_expect_unused].
+    rewrite <- app_assoc. repeat split; reflexivity.
+Qed.
+
 (* one declaration *)
 Lemma decl_eff_facts : forall dl off lvl x a,
   grows a (decl_eff dl off lvl x a) /\
   a_rules (decl_eff dl off lvl x a) = a_rules a /\
   a_prods (decl_eff dl off lvl x a) = a_prods a /\
-  a_expect_unused (decl_eff dl off lvl x a) = a_expect_unused a /\
+  map erase_sym (a_expect_unused (decl_eff dl off lvl x a)) = map erase_sym (a_expect_unused a) ++ eu_syms x /\
   map fst (a_epp (decl_eff dl off lvl x a))
   = map fst (a_epp a) ++ map fst (match x with DEpp t v => [(t, v)] | _ => [] end) /\
   match x with
@@ -256,18 +298,18 @@ Lemma decl_eff_facts : forall dl off lvl x a,
   | _ => a_start (decl_eff dl off lvl x a) = a_start a
   end.
 Proof.
-  intros dl off lvl x a. destruct x as [n|ts|k ts|t v|ts|v|v]; cbn [decl_eff map fst]; rewrite ?app_nil_r.
+  intros dl off lvl x a. destruct x as [n|ts|k ts|t v|ts|v|v|t|nm t|t|ss|ts]; cbn [decl_eff map fst eu_syms]; rewrite ?app_nil_r.
   - split; [apply grows_same; reflexivity|]. repeat split; try reflexivity. eexists. reflexivity.
   - pose proof (fold_left_rel dfr ins_declared dfr_refl dfr_trans dfr_ins_declared
                   (tok_occs (dg dl) (dq dl) 0 (off + byte_len (dg dl 0) + byte_len kw_token) ts) a)
       as [H1 [H2 [H3 [H4 H5]]]].
     split; [apply (fold_left_rel grows ins_declared grows_refl grows_trans grows_ins_declared)|].
-    rewrite H4. repeat split; assumption.
+    rewrite H4, H3. repeat split; try assumption; reflexivity.
   - pose proof (fold_left_rel dfr (ins_prec lvl k) dfr_refl dfr_trans (dfr_ins_prec lvl k)
                   (tok_occs (dg dl) (dq dl) 0 (off + byte_len (dg dl 0) + byte_len (kw_assoc k)) ts) a)
       as [H1 [H2 [H3 [H4 H5]]]].
     split; [apply (fold_left_rel grows (ins_prec lvl k) grows_refl grows_trans (grows_ins_prec lvl k))|].
-    rewrite H4. repeat split; assumption.
+    rewrite H4, H3. repeat split; try assumption; reflexivity.
   - split; [apply grows_same; reflexivity|]. cbn [a_epp upd_epp]. rewrite map_app.
     repeat split; reflexivity.
   - set (a0 := match a_avoid_insert a with None => upd_avoid a (Some []) | Some _ => a end).
@@ -279,9 +321,35 @@ Proof.
       as [H1 [H2 [H3 [H4 H5]]]].
     split; [eapply grows_trans; [exact G0|];
             apply (fold_left_rel grows ins_avoid grows_refl grows_trans grows_ins_avoid)|].
-    rewrite H4. repeat split; assumption.
+    rewrite H4, H3. repeat split; try assumption; reflexivity.
   - split; [apply grows_same; reflexivity|]. repeat split; reflexivity.
   - split; [apply grows_same; reflexivity|]. repeat split; reflexivity.
+  - split; [apply grows_refl|]. repeat split; reflexivity.
+  - split; [apply grows_same; reflexivity|]. repeat split; reflexivity.
+  - split; [apply grows_same; reflexivity|]. repeat split; reflexivity.
+  - destruct (fold_eu_facts (eu_occs (dg dl) (dq dl) 0 (off + byte_len (dg dl 0) + byte_len kw_expect_unused) ss) a)
+      as [G [H1 [H2 [H3 [H4 H5]]]]].
+    split; [exact G|]. rewrite H3, H4, map_app, erase_eu_occs. repeat split; assumption.
+  - set (a0 := match a_implicit_tokens a with None => upd_implicit a (Some []) | Some _ => a end).
+    assert (G0 : grows a a0) by (unfold a0; destruct (a_implicit_tokens a); apply grows_same; reflexivity).
+    assert (F0 : dfr a a0) by (unfold a0; destruct (a_implicit_tokens a); repeat split; reflexivity).
+    pose proof (dfr_trans _ _ _ F0
+                  (fold_left_rel dfr ins_implicit dfr_refl dfr_trans dfr_ins_implicit
+                     (tok_occs (dg dl) (dq dl) 0 (off + byte_len (dg dl 0) + byte_len kw_implicit_tokens) ts) a0))
+      as [H1 [H2 [H3 [H4 H5]]]].
+    split; [eapply grows_trans; [exact G0|];
+            apply (fold_left_rel grows ins_implicit grows_refl grows_trans grows_ins_implicit)|].
+    rewrite H4, H3. repeat split; try assumption; reflexivity.
+Qed.
+
+Lemma decl_implicit_known : forall dl off lvl ts a t, In t ts ->
+  In t (a_tokens (decl_eff dl off lvl (DImplicit ts) a)).
+Proof.
+  intros dl off lvl ts a t H. cbn [decl_eff].
+  apply (fold_left_reach ins_implicit (fun a t => In t (a_tokens a))).
+  - apply ins_implicit_self.
+  - intros a1 o t1 H1. apply (grows_ins_implicit a1 o). exact H1.
+  - right. rewrite tok_occs_fst. exact H.
 Qed.
 
 (* what one declaration makes known *)
@@ -320,22 +388,23 @@ Lemma decls_eff_facts : forall ds l d off lvl a,
   grows a (decls_eff l d off lvl ds a) /\
   a_rules (decls_eff l d off lvl ds a) = a_rules a /\
   a_prods (decls_eff l d off lvl ds a) = a_prods a /\
-  a_expect_unused (decls_eff l d off lvl ds a) = a_expect_unused a /\
+  map erase_sym (a_expect_unused (decls_eff l d off lvl ds a))
+  = map erase_sym (a_expect_unused a) ++ flat_map eu_syms ds /\
   map fst (a_epp (decls_eff l d off lvl ds a))
   = map fst (a_epp a) ++ map fst (flat_map (fun d => match d with DEpp t v => [(t, v)] | _ => [] end) ds) /\
   (a_start (decls_eff l d off lvl ds a) = a_start a \/
    exists n sp, In (DStart n) ds /\ a_start (decls_eff l d off lvl ds a) = Some (n, sp)).
 Proof.
   induction ds as [|x ds IH]; intros l d off lvl a; cbn [decls_eff flat_map].
-  - split; [apply grows_refl|]. cbn [map]. rewrite app_nil_r. repeat split; try reflexivity. left. reflexivity.
+  - split; [apply grows_refl|]. cbn [map]. rewrite !app_nil_r. repeat split; try reflexivity. left. reflexivity.
   - destruct (decl_eff_facts (dlay_of l d) off lvl x a) as [G [H1 [H2 [H3 [H4 H5]]]]].
     destruct (IH l (S d) (off + byte_len (print_decl (dlay_of l d) x)) (if is_prec x then S lvl else lvl)
                  (decl_eff (dlay_of l d) off lvl x a)) as [G' [K1 [K2 [K3 [K4 K5]]]]].
     split; [eapply grows_trans; eassumption|].
-    split; [congruence|]. split; [congruence|]. split; [congruence|]. split.
+    split; [congruence|]. split; [congruence|]. split; [rewrite K3, H3, app_assoc; reflexivity|]. split.
     + rewrite K4, H4, map_app, app_assoc. reflexivity.
     + destruct K5 as [K5|[n [sp [Hi K5]]]].
-      * rewrite K5. destruct x as [n|ts|k ts|t v|ts|v|v]; try (left; exact H5).
+      * rewrite K5. destruct x as [n|ts|k ts|t v|ts|v|v|t|nm t|t|ss|ts]; try (left; exact H5).
         destruct H5 as [sp H5]. right. exists n, sp. split; [left; reflexivity | exact H5].
       * right. exists n, sp. split; [right; exact Hi | exact K5].
 Qed.
@@ -360,7 +429,7 @@ Proof.
   induction ds as [|d ds IH]; intros n Hc Hi; [destruct Hi|].
   destruct Hi as [Hi|Hi].
   - subst d. reflexivity.
-  - destruct d as [n0|ts|k ts|t v|ts|v|v]; try (simpl in Hc |- *; apply IH; assumption).
+  - destruct d as [n0|ts|k ts|t v|ts|v|v|t|nm t|t|ss|ts]; try (simpl in Hc |- *; apply IH; assumption).
     simpl in Hc. exfalso.
     assert (H : In (DStart n) (filter (fun d => match d with DStart _ => true | _ => false end) ds))
       by (apply filter_In; split; [exact Hi | reflexivity]).
@@ -486,7 +555,7 @@ Proof.
   intros fa l rs r off at_ a Hne. split.
   - apply rstep_rules_eff.
   - intros Hn. destruct rs as [|x rs]; [congruence|]. cbn [rules_eff].
-    destruct (rule_head_fields off at_ (ar_name x) a) as [_ [_ [_ [_ [_ [_ [Hs _]]]]]]].
+    destruct (rule_head_fields off (rule_at_ at_ x) (ar_name x) a) as [_ [_ [_ [_ [_ [_ [Hs _]]]]]]].
     destruct (Hs Hn) as [sp Hsp]. exists x, sp. split; [left; reflexivity|].
     apply (rstep_rules_eff fa l rs (S r) _ at_ _). unfold rule_eff.
     apply (rstep_prods_eff fa (rlay_of l r) (ar_name x) (ar_prods x) 0 _ _). exact Hsp.
@@ -544,7 +613,7 @@ Lemma rule_eff_toks : forall fa rl off at_ r a p n,
   wf_rule D rl r -> knows a -> In p (ar_prods r) -> atoks p n ->
   In n (a_tokens (rule_eff fa rl off at_ r a)).
 Proof.
-  intros fa rl off at_ r a p n [_ [_ [_ [_ Hw]]]] Hk Hi Hn. unfold rule_eff.
+  intros fa rl off at_ r a p n [_ [_ [_ [_ [Hw _]]]]] Hk Hi Hn. unfold rule_eff.
   apply (prods_eff_toks fa rl (ar_name r) (ar_prods r) 0 _ _ p n Hw); [|exact Hi|exact Hn].
   eapply knows_grows; [apply rstep_rule_head | exact Hk].
 Qed.
@@ -724,6 +793,65 @@ Proof.
   apply IH. intros k' Hk'. apply H. right. exact Hk'.
 Qed.
 
+Lemma validate_expect_unused_ok : forall a l,
+  (forall s, In s l -> match s with SRule n _ => has_rule a n = true | SToken n _ => has_token a n = true end) ->
+  validate_expect_unused a l = None.
+Proof.
+  intros a l. induction l as [|s l IH]; intros H; [reflexivity|].
+  cbn [validate_expect_unused]. pose proof (H s (or_introl eq_refl)) as Hs.
+  destruct s as [n sp|n sp]; rewrite Hs; apply IH; intros s' Hs'; apply H; right; exact Hs'.
+Qed.
+
+(* the programs text plays no part in validation *)
+Lemma validate_syms_programs : forall a p syms, validate_syms (upd_programs a p) syms = validate_syms a syms.
+Proof.
+  intros a p syms. induction syms as [|[n sp|n sp] rest IH]; cbn [validate_syms]; [reflexivity | |].
+  - change (has_rule (upd_programs a p) n) with (has_rule a n). rewrite IH. reflexivity.
+  - change (has_token (upd_programs a p) n) with (has_token a n). rewrite IH. reflexivity.
+Qed.
+Lemma validate_prod_programs : forall a p x, validate_prod (upd_programs a p) x = validate_prod a x.
+Proof.
+  intros a p x. unfold validate_prod. rewrite validate_syms_programs.
+  destruct (p_prec x) as [n|]; [|reflexivity].
+  change (has_token (upd_programs a p) n) with (has_token a n).
+  change (a_precs (upd_programs a p)) with (a_precs a). reflexivity.
+Qed.
+Lemma validate_pidxs_programs : forall a p l, validate_pidxs (upd_programs a p) l = validate_pidxs a l.
+Proof.
+  intros a p l. induction l as [|i l IH]; cbn [validate_pidxs]; [reflexivity|].
+  change (a_prods (upd_programs a p)) with (a_prods a).
+  destruct (nth_checked (a_prods a) i) as [x| |]; cbn [obind]; try reflexivity.
+  rewrite validate_prod_programs, IH. reflexivity.
+Qed.
+Lemma validate_rules_programs : forall a p l, validate_rules (upd_programs a p) l = validate_rules a l.
+Proof.
+  intros a p l. induction l as [|r l IH]; cbn [validate_rules]; [reflexivity|].
+  rewrite validate_pidxs_programs, IH. reflexivity.
+Qed.
+Lemma first_unknown_epp_programs : forall a p l, first_unknown_epp (upd_programs a p) l = first_unknown_epp a l.
+Proof.
+  intros a p l. induction l as [|[k [sp v]] l IH]; cbn [first_unknown_epp]; [reflexivity|].
+  change (has_token (upd_programs a p) k) with (has_token a k).
+  change (a_implicit_tokens (upd_programs a p)) with (a_implicit_tokens a). rewrite IH. reflexivity.
+Qed.
+Lemma validate_eu_programs : forall a p l, validate_expect_unused (upd_programs a p) l = validate_expect_unused a l.
+Proof.
+  intros a p l. induction l as [|[n sp|n sp] l IH]; cbn [validate_expect_unused]; [reflexivity | |].
+  - change (has_rule (upd_programs a p) n) with (has_rule a n). rewrite IH. reflexivity.
+  - change (has_token (upd_programs a p) n) with (has_token a n). rewrite IH. reflexivity.
+Qed.
+Lemma validate_programs : forall a p, complete_and_validate (upd_programs a p) = complete_and_validate a.
+Proof.
+  intros a p. unfold complete_and_validate.
+  change (a_start (upd_programs a p)) with (a_start a).
+  destruct (a_start a) as [[s sp]|]; [|reflexivity].
+  change (has_rule (upd_programs a p) s) with (has_rule a s).
+  change (a_rules (upd_programs a p)) with (a_rules a).
+  change (a_epp (upd_programs a p)) with (a_epp a).
+  change (a_expect_unused (upd_programs a p)) with (a_expect_unused a).
+  rewrite validate_rules_programs, first_unknown_epp_programs, validate_eu_programs. reflexivity.
+Qed.
+
 (* ---- names of the abstract grammar ------------------------------------------------ *)
 Lemma in_tok_syms : forall ss t,
   In t (flat_map (fun s => match s with ATok n => [n] | ARule _ => [] end) ss) <-> In (ATok t) ss.
@@ -773,13 +901,19 @@ Qed.
 Lemma in_ag_tokens : forall ag t, In t (ag_tokens ag) -> exists ts, In (DToken ts) (ag_decls ag) /\ In t ts.
 Proof.
   intros ag t H. unfold ag_tokens in H. apply in_flat_map in H. destruct H as [d [Hd H]].
-  destruct d as [n|ts|k ts|t' v|ts|v|v]; try destruct H. exists ts. split; assumption.
+  destruct d as [n|ts|k ts|t' v|ts|v|v|t0|nm t0|t0|ss|ts]; try destruct H. exists ts. split; assumption.
 Qed.
 
 Lemma in_ag_avoid : forall ag t, In t (ag_avoid ag) -> exists ts, In (DAvoid ts) (ag_decls ag) /\ In t ts.
 Proof.
   intros ag t H. unfold ag_avoid in H. apply in_flat_map in H. destruct H as [d [Hd H]].
-  destruct d as [n|ts|k ts|t' v|ts|v|v]; try destruct H. exists ts. split; assumption.
+  destruct d as [n|ts|k ts|t' v|ts|v|v|t0|nm t0|t0|ss|ts]; try destruct H. exists ts. split; assumption.
+Qed.
+
+Lemma in_ag_implicit : forall ag t, In t (ag_implicit ag) -> exists ts, In (DImplicit ts) (ag_decls ag) /\ In t ts.
+Proof.
+  intros ag t H. unfold ag_implicit in H. apply in_flat_map in H. destruct H as [d [Hd H]].
+  destruct d as [n|ts|k ts|t' v|ts|v|v|t0|nm t0|t0|ss|ts]; try destruct H. exists ts. split; assumption.
 Qed.
 
 Lemma in_ag_precs : forall ag t, In t (flat_map snd (ag_precs ag)) ->
@@ -787,7 +921,7 @@ Lemma in_ag_precs : forall ag t, In t (flat_map snd (ag_precs ag)) ->
 Proof.
   intros ag t H. apply in_flat_map in H. destruct H as [[k ts] [Hk H]]. cbn [snd] in H.
   unfold ag_precs in Hk. apply in_flat_map in Hk. destruct Hk as [d [Hd Hk]].
-  destruct d as [n|ts'|k' ts'|t' v|ts'|v|v]; try destruct Hk.
+  destruct d as [n|ts'|k' ts'|t' v|ts'|v|v|t0|nm t0|t0|ss|ts']; try destruct Hk.
   - injection H0 as -> ->. exists k, ts. split; assumption.
   - destruct H0.
 Qed.
@@ -797,15 +931,19 @@ Qed.
 (* ======================================================================== *)
 Lemma validation_clean : validation_clean_stmt.
 Proof.
-  intros fa l ag Hag Hl.
-  destruct Hag as [Hs1 [_ [_ [_ [_ [_ [Hne [Hst [Hrefs [Hprec Hepp]]]]]]]]]].
-  destruct Hl as [_ [_ [_ Hwr]]].
+  intros yk fa l ag Hag Hl.
+  destruct Hag as [Hs1 [_ [_ [_ [_ [_ [Hne [Hst [Hrefs [Hprec [Hepp [_ [_ [_ [_ [_ [_ [_ [Heur Heut]]]]]]]]]]]]]]]]]]].
+  destruct Hl as [_ [_ [_ [Hwr _]]]].
   unfold ast_of.
+  assert (Hprog : forall a, complete_and_validate (programs_eff ag a) = complete_and_validate a).
+  { intros a. unfold programs_eff. destruct (ag_programs ag); [apply validate_programs | reflexivity]. }
+  rewrite Hprog. clear Hprog.
   set (A0 := decls_eff l 0 (decls_off l) 0 (ag_decls ag) ast_new).
-  set (A := rules_eff fa l 0 (rules_off l ag) None (ag_rules ag) A0).
+  set (AT := actiont_of (gat_of l ag)).
+  set (A := rules_eff fa l 0 (rules_off l ag) AT (ag_rules ag) A0).
   destruct (decls_eff_facts (ag_decls ag) l 0 (decls_off l) 0 ast_new) as [_ [D1 [D2 [D3 [D4 D5]]]]].
   fold A0 in D1, D2, D3, D4, D5. cbn [a_rules a_prods a_expect_unused a_epp a_start ast_new map app] in D1, D2, D3, D4, D5.
-  pose proof (rstep_rules_eff fa l (ag_rules ag) 0 (rules_off l ag) None A0) as [G [R1 [R2 [R3 R4]]]].
+  pose proof (rstep_rules_eff fa l (ag_rules ag) 0 (rules_off l ag) AT A0) as [G [R1 [R2 [R3 R4]]]].
   fold A in G, R1, R2, R3, R4.
   (* names *)
   assert (HRN : forall n, In n (map ar_name (ag_rules ag)) -> has_rule A n = true).
@@ -820,6 +958,11 @@ Proof.
     apply (decls_eff_reach (fun a => In t (a_tokens a)) (DAvoid ts)); [| |exact Hd].
     - intros a a' [Gi _] H. apply Gi, H.
     - intros dl off lvl a. apply decl_avoid_known. exact Hi. }
+  assert (Himp0 : forall t, In t (ag_implicit ag) -> In t (a_tokens A0)).
+  { intros t Ht. destruct (in_ag_implicit ag t Ht) as [ts [Hd Hi]].
+    apply (decls_eff_reach (fun a => In t (a_tokens a)) (DImplicit ts)); [| |exact Hd].
+    - intros a a' [Gi _] H. apply Gi, H.
+    - intros dl off lvl a. apply decl_implicit_known. exact Hi. }
   assert (HPR : forall t, In t (flat_map snd (ag_precs ag)) -> assoc_get (a_precs A) t <> None).
   { intros t Ht. rewrite R1. destruct (in_ag_precs ag t Ht) as [k [ts [Hd Hi]]].
     apply (decls_eff_reach (fun a => assoc_get (a_precs a) t <> None) (DPrec k ts)); [| |exact Hd].
@@ -829,12 +972,13 @@ Proof.
   { intros n Hn. apply Htok0. apply mem_str_in. exact Hn. }
   assert (Hrt : forall x p t, In x (ag_rules ag) -> In p (ar_prods x) -> atoks p t -> has_token A t = true).
   { intros x p t Hx Hp Ht. apply has_token_iff.
-    apply (rules_eff_toks (declared_b ag) fa l (ag_rules ag) 0 _ None A0 x p t Hwr Hk0 Hx Hp Ht). }
-  assert (HTK : forall t, In t (ag_tokens ag ++ ag_avoid ag ++ rule_tok_names ag) -> has_token A t = true).
-  { intros t Ht. apply in_app_or in Ht. destruct Ht as [Ht|Ht].
+    apply (rules_eff_toks (declared_b ag) fa l (ag_rules ag) 0 _ AT A0 x p t Hwr Hk0 Hx Hp Ht). }
+  assert (HTK : forall t, In t (known_toks ag) -> has_token A t = true).
+  { intros t Ht. unfold known_toks in Ht. apply in_app_or in Ht. destruct Ht as [Ht|Ht].
     - apply has_token_iff. apply G. apply Htok0. exact Ht.
-    - apply in_app_or in Ht. destruct Ht as [Ht|Ht].
+    - apply in_app_or in Ht. destruct Ht as [Ht|Ht]; [|apply in_app_or in Ht; destruct Ht as [Ht|Ht]].
       + apply has_token_iff. apply G. apply Havo0. exact Ht.
+      + apply has_token_iff. apply G. apply Himp0. exact Ht.
       + apply in_rule_tok_names in Ht. destruct Ht as [x [p [Hx [Hp Ht]]]]. exact (Hrt x p t Hx Hp Ht). }
   (* productions *)
   assert (HP : pinv (fun n => has_rule A n = true) (fun n => has_token A n = true)
@@ -850,7 +994,7 @@ Proof.
   destruct HP as [HP1 HP2].
   (* the start rule *)
   assert (HS : exists s sp, a_start A = Some (s, sp) /\ has_rule A s = true).
-  { destruct (rules_eff_start fa l (ag_rules ag) 0 (rules_off l ag) None A0 Hne) as [S1 S2]. fold A in S1, S2.
+  { destruct (rules_eff_start fa l (ag_rules ag) 0 (rules_off l ag) AT A0 Hne) as [S1 S2]. fold A in S1, S2.
     destruct D5 as [D5|[n [sp [Hi D5]]]].
     - destruct (S2 D5) as [x [sp [Hx Hs]]]. exists (ar_name x), sp. split; [exact Hs|].
       apply HRN. apply in_map. exact Hx.
@@ -860,7 +1004,11 @@ Proof.
   unfold complete_and_validate. rewrite HS1, HS2. cbn [negb].
   rewrite (validate_rules_ok A (a_rules A) HP1).
   - cbn [obind]. rewrite first_unknown_epp_ok.
-    + rewrite R3, D3. reflexivity.
+    + rewrite validate_expect_unused_ok; [reflexivity|].
+      intros s0 Hs0. rewrite R3 in Hs0. apply (in_map erase_sym) in Hs0. rewrite D3 in Hs0.
+      destruct s0 as [n0 sp0|n0 sp0]; cbn [erase_sym] in Hs0.
+      * apply HRN, Heur. exact Hs0.
+      * apply HTK, Heut. exact Hs0.
     + intros k Hk. apply HTK, Hepp. rewrite R2 in Hk. rewrite D4 in Hk. exact Hk.
   - eapply Forall_impl; [|exact HP2]. intros p Hp. apply validate_prod_ok. exact Hp.
 Qed.
